@@ -271,6 +271,11 @@ def support_impl(case):
 
 
 # ---------------------------------------------------------------------------------------------- generator
+# classes that raise NameError on /repo and have no known_findings entry are generated only on request
+# (C12_EXTRA=identity,imports), to try a repair on a scratch worktree
+EXTRA = set(os.environ.get("C12_EXTRA", "").split(","))
+
+
 def dy(rng, lo, hi, den, nonzero=False):
     while True:
         v = Fr(rng.randint(lo * den, hi * den), den)
@@ -296,15 +301,13 @@ def gen_case(rng, allow_viol=False, absv=False, want_delay=None, fns=False):
                     src, d = ("inter", rng.randrange(ni[s])), None
                 else:
                     src = ("state", rng.randrange(ns[s]))
-                    # an edge delay of exactly 1.0 is compiled without any delay by get_run_func and get_jacobian_func alike
-                    # (consistent, so not a C12 matter; reported to the delay properties): not generated
-                    d = rng.choice(["1/4", "1/2", "3/4", "5/4", "3/2", "2"]) if (delays and rng.random() < 0.4) else None
+                    d = rng.choice(["1/4", "1/2", "3/4", "1", "1", "5/4", "3/2", "2"]) if (delays and rng.random() < 0.4) else None
                 edges.append([s, src, t, dy(rng, -2, 2, 4, nonzero=True), d])
     # a unit-weight undelayed edge is compiled to identity(source); when its source variable also feeds a delayed edge (buffered output,
     # again identity(...)) the markers nest, `_resolve_derivatives` strips one level only and the generated Jacobian calls the undefined
     # name `identity` (NameError; separate finding with a one-line repair, see the report): that combination is not generated
     for e in edges:
-        if Fr(e[3]) == 1 and e[4] is None and any(f[0] == e[0] and f[1] == e[1] and f[4] is not None for f in edges):
+        if "identity" not in EXTRA and Fr(e[3]) == 1 and e[4] is None and any(f[0] == e[0] and f[1] == e[1] and f[4] is not None for f in edges):
             e[3] = "3/4"
     nodes, cls_inter, bits_inter = [], {}, {}
     viol = False
@@ -342,6 +345,8 @@ def gen_case(rng, allow_viol=False, absv=False, want_delay=None, fns=False):
                 f = rng.choice(["sigmoid", "sigmoid", "tanh", "sincos"])    # no exp: sympy merges exp(u)*exp(v)
                 # arguments that cannot cancel symbolically (cos(b - b) -> 1 removes the import of cos from the module)
                 arg = a if r < 0.4 else ["*", a, rng.choice(pool)] if r < 0.7 else ["+", ["*", a, rng.choice(pool)], ["c", dy(rng, 0, 1, 4, nonzero=True)]]
+                if f == "sincos" and "imports" in EXTRA:
+                    return ["fn", rng.choice(["sin", "cos"]), arg]
                 if f == "sincos":       # sin and cos always together (missing-import finding, see gen_support)
                     return ["*", ["fn", "sin", arg], ["fn", "cos", rng.choice(pool)]] if r < 0.5 else ["+", ["fn", "cos", arg], ["fn", "sin", rng.choice(pool)]]
                 return ["fn", f, arg]
@@ -378,15 +383,13 @@ def gen_case(rng, allow_viol=False, absv=False, want_delay=None, fns=False):
             for f in fs[1:]:
                 e = ["*", e, f]
             if rng.random() < 0.6:
-                # get_run_func raises TypeError on a sum that contains a negated / negatively weighted past() term (float(expr.args[1]) in
-                # _expr_to_str; not a C12 matter): terms with a literal past() get positive coefficients and are joined by "+"
-                e = ["*", ["c", dy(rng, 0, 2, 8, nonzero=True) if kind == "delayed" else dy(rng, -2, 2, 8, nonzero=True)], e]
+                e = ["*", ["c", dy(rng, -2, 2, 8, nonzero=True)], e]
             return e
 
         def poly(bare_ok=True):
             for _ in range(200):
                 e, cls = poly1()
-                if sum(bits(e, benv)) <= BIT_LIMIT and (bare_ok or e[0] not in ("v", "past")):
+                if sum(bits(e, benv)) <= BIT_LIMIT and (bare_ok or "identity" in EXTRA or e[0] not in ("v", "past")):
                     return e, cls
             raise RuntimeError("generator: no expression within the bit limit")
 
@@ -402,7 +405,7 @@ def gen_case(rng, allow_viol=False, absv=False, want_delay=None, fns=False):
             e = None
             for k in kinds:
                 t_ = term(k)
-                e = t_ if e is None else ["+" if k == "delayed" else rng.choice("+-"), e, t_]
+                e = t_ if e is None else [rng.choice("+-"), e, t_]
             cls = "clean" if set(kinds) == {"clean"} else "delayed" if set(kinds) == {"delayed"} else "mixed"
             return e, cls
 
